@@ -17,7 +17,9 @@ from ..gen_schema import gen_schema
 from ..gen_query import gen_document
 from ..model import render_document, render_sdl, render_json
 
-RULE = ("a directory tree with the same schema under two paths, different schemas with the same base name, SDL and JSON, a missing "
+RULE = ("a directory tree with the same schema under two paths, different schemas with the same base name (also one level up, reached "
+        "through relative `../` paths from the drivers' working directory), documents whose first fragment is recursive in one and "
+        "plain in the other, SDL and JSON, a missing "
         "path, an unparsable SDL and JSON schema, an unparsable query, a query that fails validation; a pool of ~30 distinct calls "
         "(schema path x query path | query string x 3 option sets). Reference = every distinct call alone in a fresh process. "
         "Histories: random sequences of 20-200 calls in one process with failing calls interleaved; stampedes of 2..16 threads "
@@ -55,6 +57,16 @@ def build_tree(root, rng):
         "c/badq.graphql": "query Q { x ",
         "c/invalid.graphql": "query Q { zz_no_such_field }\n",
     }
+    # a fixed pair of documents whose FIRST fragment is recursive in one and plain in the other (same fragment index,
+    # same name), against a small schema: state carried over between documents would show here
+    files["fix/schema.graphql"] = "type A { id: ID a: A as: [A!] name: String }\ntype Query { a: A }\n"
+    files["fix/rec.graphql"] = "query R { a { ...F } }\nfragment F on A { id a { ...F } }\n"
+    files["fix/plain.graphql"] = "query P { a { ...F } }\nfragment F on A { id name }\n"
+    files["fix/rec2.graphql"] = "query R2 { a { ...G ...F } }\nfragment G on A { name }\nfragment F on A { as { ...F } }\n"
+    # the same file names one directory level up / down: reached through relative paths from the working directory a/
+    files["schema.graphql"] = files["b/schema.graphql"]
+    files["q.graphql"] = files["b/q.graphql"]
+    os.makedirs(os.path.join(root, "fix"))
     for rel, text in files.items():
         with open(os.path.join(root, rel), "w") as f:
             f.write(text)
@@ -92,6 +104,21 @@ def build_tree(root, rng):
     call("a/schema.graphql", text="query Q { zz }")
     call("a/schema.graphql", text="query Q { ")
     call("c/missing.graphql", text=files["a/q.graphql"])
+    call("fix/schema.graphql", "fix/rec.graphql")
+    call("fix/schema.graphql", "fix/plain.graphql")
+    call("fix/schema.graphql", "fix/rec2.graphql")
+    call("fix/schema.graphql", text=files["fix/plain.graphql"], opts=1)
+    # relative paths (the drivers run with tree/a as working directory): `../schema.graphql` is tree/schema.graphql (= b's),
+    # `schema.graphql` is tree/a/schema.graphql; plus other spellings of the same files
+    def rel(schema, query, opts=0):
+        c = {"id": "k%d" % len(calls), "schema_path": schema, "query_path": query, "options": OPTS[opts], "want": ["tokens"]}
+        calls.append(c)
+    rel("../schema.graphql", "../q.graphql")
+    rel("schema.graphql", "q.graphql")
+    rel("./schema.graphql", "./q.graphql", 1)
+    rel("../a/schema.graphql", "../a/q.graphql")
+    rel("../b/../schema.graphql", "../b/q.graphql")
+    rel("../b/schema.graphql", "../q.graphql", 2)
     return calls
 
 
@@ -118,10 +145,11 @@ def main(run):
     shutil.rmtree(root, ignore_errors=True)
     os.makedirs(root)
     calls = build_tree(os.path.join(root, "tree"), rng)
+    cwd = os.path.join(root, "tree", "a")
     by_id = {c["id"]: c for c in calls}
     # ---- reference table
     with ThreadPoolExecutor(NCPU) as ex:
-        refs = list(ex.map(lambda c: run_gendrv_one(c, wall_s=60), calls))
+        refs = list(ex.map(lambda c: run_gendrv_one(c, wall_s=60, cwd=cwd), calls))
     ref = {}
     for c, r in zip(calls, refs):
         resp = r.get("response")
@@ -199,7 +227,7 @@ def main(run):
         if hi % 2 == 0:
             seq[0] = r.choice(sorted(failing)) if failing else seq[0]
         reqs = [dict(by_id[c], events=True) for c in seq]
-        p = subprocess.run([exe, "serve"], input="".join(json.dumps(q) + "\n" for q in reqs), capture_output=True, text=True, timeout=600)
+        p = subprocess.run([exe, "serve"], input="".join(json.dumps(q) + "\n" for q in reqs), capture_output=True, text=True, timeout=600, cwd=cwd)
         outs = [json.loads(l) for l in p.stdout.splitlines()]
         return hi, seq, outs, p.returncode
     with ThreadPoolExecutor(NCPU) as ex:
@@ -241,7 +269,7 @@ def main(run):
             threads.append([r.choice(hot if r.random() < 0.7 else calls) for _ in range(k)])
             sleeps.append([r.choice([0, 0, 0, 50, 150, 300]) for _ in range(k)])
         job = {"threads": threads, "sleeps_us": sleeps}
-        p = subprocess.run([exe, "stampede"], input=json.dumps(job), capture_output=True, text=True, timeout=600)
+        p = subprocess.run([exe, "stampede"], input=json.dumps(job), capture_output=True, text=True, timeout=600, cwd=cwd)
         try:
             out = json.loads(p.stdout)
         except ValueError:
@@ -276,7 +304,10 @@ def main(run):
     run.counters["distinct-lock-orders"] = len(orders)
     # ---- (3) Miri
     miri_seeds = run.size(4, 48)
-    miri = run_miri(run, root, miri_seeds)
+    if os.environ.get("VERIF_SKIP_MIRI"):     # authoring aid for cross-evaluation of seeded changes; leaves the run below its floor
+        miri = {"status": "skipped"}
+    else:
+        miri = run_miri(run, root, miri_seeds)
     run.extra["miri"] = miri
     shutil.rmtree(root, ignore_errors=True)
     return run.finish(floor=FLOOR if run.tier == "quick" else {k: (v * 20 if k not in ("distinct-lock-orders", "miri-runs") else v * 4) for k, v in FLOOR.items()})
